@@ -92,6 +92,10 @@ PROBES = [
 FIXED_SOURCES = [
     ("fixed1.mac", "lab: .ascii \"ПРИВЕТ, мир\"\n.asciz \"plain text\"\n.even\nend: .word lab, end, 'Я\nmake_wav \"fixed1.wav\"\n"),
     ("fixed2.mac", ".asciz \"Ж\"\n.even\n.word 'ю, \"ab\nx = 'Щ\n.word x\n.rad50 /ABC/\nmake_raw\n"),
+    # warnings of many kinds from fixed source positions (whatever is remembered per position of an
+    # earlier diagnostic must not silence or alter a later run's diagnostics)
+    ("fixed4.mac", ".list\n.title Demo\n.byte\n.byte 0\nclr @r0\n.sbttl Part\n.ident \"V1\"\n.page\n.nlist\nblkb 2\n"
+                   "br 1 + 2\n1: nop\nnop\n.repeat 3 { .list }\nmake_raw\n"),
     ("fixed3.mac", ".ascii \"abc\"<12>\"déjà\"\n.even\nmov #'é, r0\nmake_wav \"fixed3.wav\", \"ИМЯ\"\n"),
 ]
 
